@@ -40,6 +40,14 @@ static void check_sequence(const char* what, const std::string& label, const ipr
       for (auto r = s.end(); r != s.begin() and backp <= n + 2;) { r--; ++backp; }
       out("Iterator::backwards", label + ":" + what, back == n and backp == n, "visited=" + std::to_string(back) + "/" + std::to_string(backp));
    }
+   if (n > 1) {
+      // the prefix forms yield the iterator itself: stepping twice through their result moves the iterator twice
+      auto p = s.end(); --(--p);
+      auto q = s.begin(); ++(++q);
+      bool refs = std::is_lvalue_reference_v<decltype(--p)> and std::is_lvalue_reference_v<decltype(++p)>;
+      out("Iterator::--(--p)/++(++p)", label + ":" + what, p == s.position(n - 2) and q == s.position(2) and refs,
+          std::string("yields-the-iterator-itself=") + (refs ? "1" : "0"));
+   }
    // iterators into DIFFERENT sequences are different, whatever their positions (== compares the sequence and the index)
    static std::vector<const ipr::Sequence<T>*> earlier;
    bool apart = true;
